@@ -72,8 +72,8 @@ class Env:
 
         def exp_rename(se):
             s, e = se
-            for x in e.free_symbols:
-                e = e.subs(x, Symbol(f"{deff[0]}_{x.name}"))
+            # all at once: a symbol already called <name>_x must not be renamed twice
+            e = e.xreplace({x: Symbol(f"{deff[0]}_{x.name}") for x in e.free_symbols})
             return (Symbol(f"{deff[0]}_{s.name}"), e)
 
         deff = (
@@ -87,7 +87,9 @@ class Env:
         d_exp: Dict[Symbol, Boolean] = {}
         n_exps = []
         for s, e in deff[3]:
-            new_e = e.subs(d_exp)
+            # d_exp is already in terms of the arguments: substitute simultaneously, so
+            # that a reassigned parameter (x = x + y) is not substituted into itself
+            new_e = e.xreplace(d_exp)
             d_exp[s] = new_e
             n_exps.append((s, new_e))
 
